@@ -10,11 +10,6 @@ index keeps stale ids (an overwrite never un-indexes the terms of the previous f
 un-indexes the terms of the *current* fact), so the candidate list of one `isearchLoop` is bounded by the
 longest id list of the term index, not by `|facts|`. -/
 
-/-- length of the longest id list in the term index -/
-def tiWidth : TI → Nat
-  | [] => 0
-  | (_, ids) :: r => max ids.length (tiWidth r)
-
 /-- a budget that always suffices (theorem `cascade_terminates`) -/
 def St.fuelOK (s : St) : Nat := 6 * s.facts.length + 12 + tiWidth s.ti
 
@@ -55,6 +50,24 @@ structure WF (s : St) : Prop where
 /-- no stored fact is expired at `now` (and every stored `expires` is a number, as `PrepareFact` leaves it) -/
 def NoneExpired (s : St) (now : Int) : Prop := ∀ e, e ∈ s.facts → checkExpiration e.2 now = .ok false
 
+/-- no stored fact other than `id` is expired at `now`: the situation of `Rem id` *and* of a deletion of `id`
+triggered by its own expiry -/
+def NoneExpiredBut (s : St) (id : String) (now : Int) : Prop :=
+  ∀ e, e ∈ s.facts → e.1 ≠ id → checkExpiration e.2 now = .ok false
+
+/-- `Get` with the corrected budget (an expired fact is removed, with its cascade, before not-found is reported) -/
+def St.getOK (s : St) (id : String) (now : Int) : St × Except LErr Obj :=
+  match amGet s.facts id with
+  | none => (s, .error "notFound")
+  | some fact =>
+    match checkExpiration fact now with
+    | .error e => (s, .error e)
+    | .ok true =>
+      match s.remOK id now with
+      | (s1, .error e) => (s1, .error e)
+      | (s1, .ok _) => (s1, .error "notFound")
+    | .ok false => (s, .ok fact)
+
 /-! ## the cascade's search pattern and the dependency relation -/
 
 /-- the pattern `{"deleteWith":[id]}` that `deleteDependencies` searches for -/
@@ -78,15 +91,15 @@ def UnindexOK (s : St) : Prop := ∀ e, e ∈ s.facts → unindexErr e.1 e.2 = f
 
 /-! ## operation histories -/
 
-inductive Op where
+inductive StOp where
   | add (id : String) (x : Obj) (now : Int)
   | rem (id : String) (now : Int)
 
-def St.step (s : St) : Op → St
+def St.step (s : St) : StOp → St
   | .add id x now => (s.add id x now).1
   | .rem id now => (s.remOK id now).1
 
-def St.run (s : St) (ops : List Op) : St := ops.foldl St.step s
+def St.run (s : St) (ops : List StOp) : St := ops.foldl St.step s
 
 /-- generated ids: no stored id has the form `fresh#n` with `n ≥ s.fresh` -/
 def FreshOK (s : St) : Prop := ∀ e, e ∈ s.facts → ∀ n, s.fresh ≤ n → e.1 ≠ "fresh#" ++ toString n
@@ -129,6 +142,12 @@ def TermOK (p : Obj) : Bool := noVarKeysO p && noOptVarsO p
 whenever the matcher returns a binding for `p` against a fact, some bindings lay `p` over the fact. -/
 def MatcherSound (p : Obj) : Prop :=
   ∀ (f : Obj) (bss : List Bs), matchesJ (.obj p) (.obj f) = .ok bss → bss ≠ [] → ∃ σ, pmv σ (.obj p) (.obj f) = true
+
+/-- the same hypothesis restricted to the stored facts (what the search theorems need; with C05's `match_sound`
+it follows from `patOK p`, `dataOK` of every stored fact and the scalar-repeats condition) -/
+def MatcherSoundOn (F : List (String × Obj)) (p : Obj) : Prop :=
+  ∀ e, e ∈ F → ∀ (bss : List Bs), matchesJ (.obj p) (.obj e.2) = .ok bss → bss ≠ [] →
+    ∃ σ, pmv σ (.obj p) (.obj e.2) = true
 
 /-- the (id, bindings) view of a search result -/
 def projRes (r : List (String × Obj × List Bs)) : List (String × List Bs) := r.map (fun x => (x.1, x.2.2))
